@@ -51,8 +51,9 @@ fn is_lit(b: &[u8], t: &[u8]) -> bool {
 #[kani::unwind(8)]
 #[kani::stub(crate::utils::fast_hash, stub_fast_hash_rec)]
 fn c12_scheme() {
-    let sb: [u8; 5] = crate::verif_shim::any_bytes::<5>();
-    let sl: usize = kani::any();
+    let mut dr = crate::verif_shim::Draw::new();
+    let sb: [u8; 5] = dr.bytes::<5>();
+    let sl: usize = dr.usize();
     let s = sym_ascii(&sb, sl);
     // the scheme is the URL prefix before the first ':' (documented precondition of the private constructor)
     let mut i = 0;
@@ -60,7 +61,7 @@ fn c12_scheme() {
         kani::assume(sb[i] != b':');
         i += 1;
     }
-    let ty: u8 = kani::any();
+    let ty: u8 = dr.u8();
     let raw = match ty % 3 {
         0 => "image",
         1 => "script",
@@ -84,13 +85,14 @@ fn c12_scheme() {
 #[kani::proof]
 #[kani::unwind(20)]
 fn c12_types() {
+    let mut dr = crate::verif_shim::Draw::new();
     const T: [(&str, u8); 25] = [
         ("beacon", 0), ("csp_report", 1), ("document", 2), ("main_frame", 2), ("font", 3), ("image", 4), ("imageset", 4),
         ("media", 5), ("object", 6), ("object_subrequest", 6), ("ping", 0), ("script", 7), ("stylesheet", 8), ("sub_frame", 9),
         ("subdocument", 9), ("websocket", 10), ("xhr", 11), ("xmlhttprequest", 11), ("other", 12), ("speculative", 12), ("xslt", 12),
         ("web_manifest", 12), ("xbl", 12), ("xml_dtd", 12), ("no-such-type", 12),
     ];
-    let i: usize = kani::any();
+    let i: usize = dr.usize();
     kani::assume(i < 25);
     let got = cpt_match_type(T[i].0);
     let code = match got {
@@ -117,8 +119,9 @@ fn c12_types() {
 /// source-host hashes: absent iff the host is empty; otherwise the full host followed by one entry per
 /// '.'-suffix (a '.' that is the last byte adds none), in that order, each the hash of exactly that suffix.
 fn srchash_kernel<const N: usize>() {
-    let hb: [u8; N] = crate::verif_shim::any_bytes::<N>();
-    let hl: usize = kani::any();
+    let mut dr = crate::verif_shim::Draw::new();
+    let hb: [u8; N] = dr.bytes::<N>();
+    let hl: usize = dr.usize();
     let h = sym_ascii(&hb, hl);
     let r = Request::preparsed("a:", "", h, "image", false);
     unsafe {
